@@ -615,7 +615,96 @@ pub fn convert_once(case: &Case) -> Result<(Vec<(String, Vec<i16>)>, String), St
                     }
                 }
             };
-            Ok((vec![], format!("{a}\n{b}")))
+            // Part (c): two instances of a cell with a z-top port, and one port-relative net assignment per instance,
+            // both coming down on the same track of the layer above; which of two heap allocations holds which
+            // instance alternates between rebuilds. The hand-over order of the assignments must not follow addresses.
+            let c3 = {
+                use layout21tetris as tetris;
+                use tetris::placement::{Align, Placeable, RelAssign, RelativePlace, Separation, Side};
+                use tetris::stack::{FlipMode, MetalLayer, PrimitiveLayer, PrimitiveMode, RelZ, Stack, ViaLayer};
+                use tetris::tracks::{TrackEntry, TrackSpec};
+                use tetris::{abs, cell::Cell, instance::Instance, layout::Layout, library::Library as TLib, outline::Outline};
+                let te = |x: raw::LayoutError| format!("setup: {x:?}");
+                let mut rawlayers = Layers::default();
+                let purps = [(255, LayerPurpose::Obstruction), (20, LayerPurpose::Drawing), (5, LayerPurpose::Label), (16, LayerPurpose::Pin)];
+                let vpurps = [(255, LayerPurpose::Obstruction), (44, LayerPurpose::Drawing), (5, LayerPurpose::Label), (16, LayerPurpose::Pin)];
+                let boundary = rawlayers.add(Layer::from_pairs(236, &[(0, LayerPurpose::Outline)]).map_err(te)?);
+                let m: Vec<LayerKey> = (0..3).map(|i| Layer::from_pairs(68 + i, &purps).map(|l| rawlayers.add(l))).collect::<Result<_, _>>().map_err(te)?;
+                let v: Vec<LayerKey> = (0..2).map(|i| Layer::from_pairs(168 + i, &vpurps).map(|l| rawlayers.add(l))).collect::<Result<_, _>>().map_err(te)?;
+                let horiz = |name: &str, key: LayerKey, prim: PrimitiveMode| MetalLayer {
+                    name: name.into(),
+                    entries: vec![TrackSpec::gnd(480), TrackSpec::repeat(vec![TrackEntry::gap(200), TrackEntry::sig(140)], 6), TrackSpec::gap(200), TrackSpec::pwr(480)],
+                    dir: raw::Dir::Horiz,
+                    offset: (-240).into(),
+                    cutsize: (250).into(),
+                    overlap: (480).into(),
+                    raw: Some(key),
+                    flip: FlipMode::EveryOther,
+                    prim,
+                };
+                let stack = Stack {
+                    units: Units::Nano,
+                    boundary_layer: Some(boundary),
+                    prim: PrimitiveLayer { pitches: (460, 2720).into() },
+                    metals: vec![
+                        horiz("met1", m[0], PrimitiveMode::Split),
+                        MetalLayer { name: "met2".into(), entries: vec![TrackSpec::sig(140), TrackSpec::gap(320)], dir: raw::Dir::Vert, cutsize: (250).into(), offset: (-70).into(), overlap: (0).into(), raw: Some(m[1]), flip: FlipMode::None, prim: PrimitiveMode::Stack },
+                        horiz("met3", m[2], PrimitiveMode::Stack),
+                    ],
+                    vias: vec![
+                        ViaLayer { name: "via1".into(), size: (240, 240).into(), bot: 0.into(), top: 1.into(), raw: Some(v[0]) },
+                        ViaLayer { name: "via2".into(), size: (240, 240).into(), bot: 1.into(), top: 2.into(), raw: Some(v[1]) },
+                    ],
+                    rawlayers: Some(Ptr::new(rawlayers)),
+                }
+                .validate()
+                .map_err(te)?;
+                let mut lib = TLib::new("portassign");
+                let mut lil = Cell::new("lil");
+                lil.layout = Some(Layout::new("lil", 1, Outline::rect(2, 1).map_err(te)?));
+                let mut lil_abs = abs::Abstract::new("lil", 1, Outline::rect(2, 1).map_err(te)?);
+                lil_abs.ports.push(abs::Port { name: "PPP".into(), kind: abs::PortKind::ZTopEdge { track: 0, side: abs::Side::BottomOrLeft, into: (2, RelZ::Above) } });
+                lil.abs = Some(lil_abs);
+                let lil = lib.cells.add(lil);
+                let blank = || Instance { inst_name: String::new(), cell: lil.clone(), loc: (0, 0).into(), reflect_horiz: false, reflect_vert: false };
+                let (a, b) = (Ptr::new(blank()), Ptr::new(blank()));
+                let addr = |p: &Ptr<Instance>| std::sync::Arc::as_ptr(&**p) as *const u8 as usize;
+                let (lo, hi) = if addr(&a) < addr(&b) { (a, b) } else { (b, a) };
+                let flip = REBUILD_PARITY.with(|p| p.get());
+                let (i1, i2) = if flip { (hi, lo) } else { (lo, hi) };
+                {
+                    let mut i = i1.write().map_err(|_| "lock".to_string())?;
+                    i.inst_name = "i1".into();
+                    i.loc = (0, 0).into();
+                }
+                {
+                    let mut i = i2.write().map_err(|_| "lock".to_string())?;
+                    i.inst_name = "i2".into();
+                    i.loc = (0, 1).into();
+                }
+                let mut parent = Layout::new("parent", 3, Outline::rect(40, 35).map_err(te)?);
+                parent.instances.push(i1.clone());
+                parent.instances.push(i2.clone());
+                for (net, inst) in [("NET1", &i1), ("NET2", &i2)] {
+                    parent.places.push(Placeable::Assign(Ptr::new(RelAssign { net: net.into(), loc: RelativePlace { to: Placeable::Port { inst: inst.clone(), port: "PPP".into() }, align: Align::Center, side: Side::Left, sep: Separation::z(2) } })));
+                }
+                lib.cells.add(parent);
+                match tetris::conv::raw::RawExporter::convert(lib, stack) {
+                    Err(e) => return Err(format!("tetris->raw conversion of port-relative assignments failed: {e:?}")),
+                    Ok(p) => {
+                        let rl = p.read().map_err(|_| "lock".to_string())?;
+                        let mut s = String::new();
+                        for c in rl.cells.iter() {
+                            let c = c.read().map_err(|_| "lock".to_string())?;
+                            if let Some(l) = &c.layout {
+                                s.push_str(&format!("{} {:?}\n", c.name, l.elems.iter().map(|e| (e.net.clone(), format!("{:?}", e.inner))).collect::<Vec<_>>()));
+                            }
+                        }
+                        s
+                    }
+                }
+            };
+            Ok((vec![], format!("{a}\n{b}\n{c3}")))
         }
         11 => {
             // LEF *text* -> lef21 -> raw -> lef21: the text optionally states no VERSION / 5.8 / 5.4, optionally ends
@@ -703,7 +792,7 @@ impl CaseDriver for C20 {
     }
     fn describe(&self, _tier: Tier) -> Describe {
         Describe {
-            rule: "inputs: raw libraries with 1-2 abstract cells whose 1-2 ports carry shapes on 1-3 layers and whose blockages sit on 0/2/3 layers (unordered maps with 1-3 keys, every insertion order), 1-2 shapes per layer, plus a layout cell with elements on 3 layers x 2 purposes, an annotation and a reflected+rotated instance; LEF / protobuf / GDSII inputs derived from them in a fixed order. Conversions: raw->GDSII (bytes, dates pinned), raw->protobuf (prost bytes), raw->LEF (serde_json), LEF->raw->LEF, protobuf->raw->protobuf, GDSII->raw, raw->GDSII->raw, LEF text (no VERSION / 5.8 / 5.4, with or without END LIBRARY, with or without statements only versions <= 5.4 allow; a reader error is a result like any other)->raw->LEF, gridded layout->raw (raw results as an order-preserving dump; the gridded cell optionally holds two instances abutting along the tracks), and two conversions whose result is an error - GDSII->raw on struct rings of 2..4 closed by SREF / AREF (optionally a second ring, either listing order) raw->protobuf on cell rings, raw->GDSII / raw->protobuf of an element whose layer does not define its purpose, raw->protobuf of an unnamed instance rotated by 22.5 degrees, LEF->raw->LEF with a supplied layer that has no name of its own and is indexed under 2..3 names the LEF uses, and gridded layout->raw of a cut lying under an instance / of two overlapping cuts - where the rendered error is the compared output. Configurations: every input is rebuilt / re-imported with fresh HashMaps until each of the k! iteration orders of every map the exporter walks has been observed on the very map objects (minimum 32, cap 4096 rebuilds; coverage measured and reported as tags), plus fresh OS processes, plus the same input once more after each of three *other* inputs went through the same conversion in the same process (no state carried from one library to the next); conversions that expose no map (GDSII->raw) are repeated 32 times - unordered containers internal to a converter cannot be enumerated, only exercised. Two of the three layers may share a layer number, and then the other layers also define each purpose under two numbers. A state is (input, conversion); non-trivial = some map has >= 2 keys.".into(),
+            rule: "inputs: raw libraries with 1-2 abstract cells whose 1-2 ports carry shapes on 1-3 layers and whose blockages sit on 0/2/3 layers (unordered maps with 1-3 keys, every insertion order), 1-2 shapes per layer, plus a layout cell with elements on 3 layers x 2 purposes, an annotation and a reflected+rotated instance; LEF / protobuf / GDSII inputs derived from them in a fixed order. Conversions: raw->GDSII (bytes, dates pinned), raw->protobuf (prost bytes), raw->LEF (serde_json), LEF->raw->LEF, protobuf->raw->protobuf, GDSII->raw, raw->GDSII->raw, LEF text (no VERSION / 5.8 / 5.4, with or without END LIBRARY, with or without statements only versions <= 5.4 allow; a reader error is a result like any other)->raw->LEF, gridded layout->raw (raw results as an order-preserving dump; the gridded cell optionally holds two instances abutting along the tracks; and a cell with two port-relative net assignments on instances whose heap addresses swap between rebuilds), and two conversions whose result is an error - GDSII->raw on struct rings of 2..4 closed by SREF / AREF (optionally a second ring, either listing order) raw->protobuf on cell rings, raw->GDSII / raw->protobuf of an element whose layer does not define its purpose, raw->protobuf of an unnamed instance rotated by 22.5 degrees, LEF->raw->LEF with a supplied layer that has no name of its own and is indexed under 2..3 names the LEF uses, and gridded layout->raw of a cut lying under an instance / of two overlapping cuts - where the rendered error is the compared output. Configurations: every input is rebuilt / re-imported with fresh HashMaps until each of the k! iteration orders of every map the exporter walks has been observed on the very map objects (minimum 32, cap 4096 rebuilds; coverage measured and reported as tags), plus fresh OS processes, plus the same input once more after each of three *other* inputs went through the same conversion in the same process (no state carried from one library to the next); conversions that expose no map (GDSII->raw) are repeated 32 times - unordered containers internal to a converter cannot be enumerated, only exercised. Two of the three layers may share a layer number, and then the other layers also define each purpose under two numbers. A state is (input, conversion); non-trivial = some map has >= 2 keys.".into(),
             assumptions: vec!["an unordered map in the raw data model itself is rendered sorted (a map has no order); every ordered container must keep its order".into()],
             excluded: vec!["gridded layout -> raw is exercised on three stacks x a few cells only (the C08 alphabet is not re-enumerated here)".into()],
             technique: "exhaustive enumeration of hash-map iteration orders (observed on the real map objects) x inputs x conversions; outputs compared byte-for-byte within and across processes".into(),
